@@ -1,7 +1,8 @@
 """C01 - ancestor sets are the exact closure (clauses: PAIR edge writers, PHASE cache writers, ROLE cache write, FIELD readers; WIT in the thorough tier)"""
 import re
 from engines import Atomic, MutSummary, RefDeriv, positive_edges, origins
-from engines import check_required_steps
+from engines import check_required_steps, for_loops, check_every_element, hard_truncations
+from props.shared import arena_placeholder_skips
 from prov import Prov, params_of, field_names
 from props import codec
 
@@ -212,6 +213,26 @@ def run(ck, prog, ctx):
 
     if cat is not None:
         check_required_steps(ck, "PHASE", prog, cat, [("build the cache of every term", lambda t: t.callee.res in cache_writers or (t.callee.res or "").endswith("::all_grandparents"))])
+    if cat is not None:
+        # the set of terms the cache pass visits: an Arena accessor that leaves out exactly the placeholder slot, iterated completely
+        dflt = prog.body("<ontology::termarena::Arena as std::default::Default>::default")
+        n_ph = len([t for _, t in dflt.calls() if t.callee.method == "push" and "HpoTermInternal" in (t.callee.def_args or "")]) if dflt is not None else None
+        accs = sorted({t.callee.res.rsplit("::", 1)[-1] for fb in prog.family(cat) for _, t in fb.calls() if (t.callee.res or "").startswith("ontology::termarena::Arena::") and t.callee.res.rsplit("::", 1)[-1] in ("keys", "values", "values_mut", "iter")})
+        if not accs or n_ph is None:
+            ck.undecided("PHASE", "connect/visits-all", "the accessor that enumerates the terms for the cache pass is not recognised", where=cat.where())
+        for a in accs:
+            k = arena_placeholder_skips(prog, a)
+            if k is None:
+                ck.undecided("PHASE", "connect/visits-all/" + a, "shape of Arena::%s not recognised" % a, where=cat.where())
+            else:
+                ck.ob("PHASE", "connect/visits-all/" + a, k == n_ph, "connect_all_terms enumerates the terms with Arena::%s, which leaves out %d leading slot(s) of `terms` (the arena reserves %d placeholder): %s" % (a, k, n_ph, "every term gets its ancestor cache" if k == n_ph else "the first real term(s) never get an ancestor cache"), where=cat.where())
+        fl = for_loops(cat)
+        for i, lp in enumerate(fl):
+            steps = {bi for bi, t in cat.calls() if bi in lp["blocks"] and (t.callee.res in cache_writers or (t.callee.res or "").endswith("::all_grandparents"))}
+            if steps:
+                check_every_element(ck, "PHASE", "connect/loop/%d" % i, cat, lp, steps, "build the ancestor cache", "the terms of the arena")
+        hard = hard_truncations(prog, cat)
+        ck.ob("PHASE", "connect/complete-iteration", not hard, "connect_all_terms %s" % ("iterates the enumerated terms completely" if not hard else "drops terms with `%s` (line %s)" % (hard[0][1].callee.method, hard[0][1].line)), where=cat.where())
     for wid in sorted(cache_writers):
         wb_ = prog.bodies[wid]
         if wb_.kind in ("Fn", "AssocFn") and wb_.impl_self and wb_.impl_self.get("adt") == "ontology::builder::Builder":
